@@ -126,7 +126,9 @@ type Sim struct {
 	InResultWindow bool
 	YieldsAtStart  int64
 	TimerFires     int
-	Rejected       int
+	// FiredGen[g]: search generation g was ended by its own timer
+	FiredGen []bool
+	Rejected int
 	// StaleFires counts TimerFire events whose timer was spawned by an
 	// earlier search generation than the one running when it fired.
 	StaleFires []Ev
@@ -463,6 +465,13 @@ func hookEvent(kind int, a interface{}) {
 		tok, _ := a.(uint64)
 		s.record(kind, tok)
 		s.TimerFires++
+		if s.SearchActive && tok < maxTokens && int(s.tokenGen[tok]) == s.SearchGen {
+			// the running search is being ended by its own timer
+			for len(s.FiredGen) <= s.SearchGen {
+				s.FiredGen = append(s.FiredGen, false)
+			}
+			s.FiredGen[s.SearchGen] = true
+		}
 		if tok < maxTokens && (int(s.tokenGen[tok]) != s.SearchGen || !s.SearchActive) {
 			s.StaleFires = append(s.StaleFires, Ev{T: s.Now(), Kind: kind, Tok: tok, Gen: s.SearchGen})
 		}
